@@ -30,6 +30,7 @@ from kappadata.transforms import (
     KDSemsegPad, KDSemsegResize, KDSemsegRandomResize, KDSemsegRandomHorizontalFlip, KDSemsegRandomCrop,
     Patchify, Unpatchify, PatchifyImage, UnpatchifyImage, PatchwiseShuffle, KDImageNorm, KDImageRangeNorm,
 )
+from kappadata.transforms import KDRandomSolarize
 from kappadata.wrappers import SemsegTransformWrapper
 
 KDTwoRandomCrop = importlib.import_module("kappadata.transforms.kd_two_random_crop").KDTwoRandomCrop
@@ -59,7 +60,8 @@ ASSUMPTIONS = [
     "placement of the semseg padding (centred) and the number of erased rectangles actually drawn are not judged",
     "denorm(norm(x)) is compared with atol 1e-5 on values in [0,1], std in [0.05, 2]",
 ]
-MONITORS = ["crop_reproduced", "erase_checked", "specaugment_checked", "paired_checked", "pipeline_checked", "inverse_checked"]
+MONITORS = ["crop_reproduced", "erase_checked", "specaugment_checked", "paired_checked", "pipeline_checked", "inverse_checked",
+            "pipeline_separate_access_with_image_only_draws"]
 
 CROP_KINDS = ["random_crop", "two_random_crop", "random_resized_crop", "simple_random_crop"]
 ERASE_KINDS = ["erasing", "specaugment"]
@@ -164,22 +166,41 @@ _RATIOS = [(3 / 4, 4 / 3), (1.0, 1.0), (0.05, 0.1), (10.0, 20.0), (0.01, 100.0),
 
 def _gen_pipeline(rng, sizes, io):
     """stage list for SemsegTransformWrapper; tracks the member sizes where they are known so that the random resize is
-    only placed on inputs inside its domain"""
+    only placed on inputs inside its domain. Image-only stages: 'norm' (deterministic), 'xdraw' (harness transform that
+    consumes draws of the injected generator) and 'solarize' (KDRandomSolarize at the no-op / invertible threshold)."""
     cur = list(sizes)
     stages = []
     used_norm = False
-    template = rng.random() < 0.35
-    plan = ["rresize", "crop", "hflip", "norm", "pad"] if template else None
+    r = rng.random()
+    if r < 0.25:
+        plan = ["rresize", "crop", "hflip", "norm", "pad"]
+    elif r < 0.5:
+        # a stochastic image-only stage in front of stochastic paired stages (shared per-sample generator)
+        plan = [rng.choice(["xdraw", "solarize"]), rng.choice(["crop_room", "rresize"]), "hflip_half", rng.choice(["xdraw", "pad", "crop_room"]), "pad"]
+        if rng.random() < 0.5:
+            plan.insert(0, rng.choice(["hflip_half", "resize", "norm"]))
+    else:
+        plan = None
+    allow_norm = True
+    if plan is not None and "solarize" in plan and io == "tensor":
+        allow_norm = False
     n = len(plan) if plan else rng.randint(2, 5)
     for k in range(n):
-        kind = plan[k] if plan else rng.choice(["rresize", "crop", "crop", "hflip", "pad", "resize", "norm"])
+        kind = plan[k] if plan else rng.choice(["rresize", "crop", "crop", "hflip", "pad", "resize", "norm", "xdraw", "solarize"])
         if kind == "norm":
-            if io != "tensor" or used_norm:
+            if io != "tensor" or used_norm or not allow_norm:
                 continue
             used_norm = True
             stages.append({"k": "norm"})
-        elif kind == "hflip":
-            stages.append({"k": "hflip", "p": rng.choice([0.0, 1.0, 0.5, 0.5])})
+        elif kind == "xdraw":
+            stages.append({"k": "xdraw", "n": rng.choice([1, 1, 2, 3])})
+        elif kind == "solarize":
+            if io == "tensor" and used_norm:
+                continue
+            allow_norm = allow_norm and io != "tensor"
+            stages.append({"k": "solarize", "p": rng.choice([0.5, 0.5, 1.0, 0.0])})
+        elif kind in ("hflip", "hflip_half"):
+            stages.append({"k": "hflip", "p": 0.5 if kind == "hflip_half" else rng.choice([0.0, 1.0, 0.5, 0.5])})
         elif kind == "resize":
             s = [rng.randint(1, 48), rng.randint(1, 48)]
             stages.append({"k": "resize", "size": s})
@@ -189,8 +210,13 @@ def _gen_pipeline(rng, sizes, io):
             stages.append({"k": "pad", "size": s})
             if cur is not None:
                 cur = [(max(h, s[0]), max(w, s[1])) for h, w in cur]
-        elif kind == "crop":
-            s = [rng.randint(1, 48), rng.randint(1, 48)]
+        elif kind in ("crop", "crop_room"):
+            if kind == "crop_room" and cur is not None:
+                # leave room so that the window position really depends on the draws
+                mh, mw = min(h for h, _ in cur), min(w for _, w in cur)
+                s = [rng.randint(1, max(1, mh // 2)), rng.randint(1, max(1, mw // 2))]
+            else:
+                s = [rng.randint(1, 48), rng.randint(1, 48)]
             mcr = rng.choice([1.0, 1.0, 0.75, 0.3]) if io == "tensor" else 1.0
             stages.append({"k": "crop", "size": s, "mcr": mcr, "ignore": rng.choice([-1, -1, 255])})
             if cur is not None:
@@ -694,9 +720,9 @@ def _spec_case(run, s):
 
 
 # ================================================================================================ paired image / mask
-def _check_pair(run, kind, img, mask, orig_mask, what, normed=False):
+def _check_pair(run, kind, img, mask, orig_mask, what, normed=False, solarized=False):
     """mask == label of the pixel the image shows; -> decoded codes or None"""
-    codes, ok = G.decode_image(img, normed)
+    codes, ok = G.decode_image(img, normed, solarized)
     if not ok:
         run.violation(f"paired:{kind}:image-not-decodable", f"{what}: image values are no coordinate codes (not a nearest-neighbour geometry)")
         return None
@@ -720,11 +746,16 @@ def _check_pair(run, kind, img, mask, orig_mask, what, normed=False):
     return codes
 
 
-def _build_stage(st, seed=None):
+def _build_stage(st, seed=None, io="tensor"):
     k = st["k"]
     if k == "norm":
         return KDImageRangeNorm()
-    if k == "hflip":
+    if k == "xdraw":
+        t = G.DrawingImageOnly(n_draws=st["n"])
+    elif k == "solarize":
+        # threshold at the top of the value range: identity for PIL (values < 256), tensor codes (>= 1) become 1 - code
+        t = KDRandomSolarize(p=st["p"], threshold=1.0 if io == "tensor" else 256)
+    elif k == "hflip":
         t = KDSemsegRandomHorizontalFlip(p=st["p"])
     elif k == "resize":
         return KDSemsegResize(size=st["size"], interpolation="nearest")
@@ -865,13 +896,21 @@ def _pipeline_case(run, s):
     ds = G.PairDataset([it[0] for it in items], [it[1] for it in items])
     stages = s["stages"]
     normed = any(st["k"] == "norm" for st in stages)
+    solar = any(st["k"] == "solarize" for st in stages)
+    draws_before_paired = False   # a stochastic image-only stage in front of a stochastic paired stage
+    seen_draw = False
+    for st in stages:
+        if st["k"] in ("xdraw", "solarize"):
+            seen_draw = True
+        elif seen_draw and st["k"] in ("crop", "rresize") or (seen_draw and st["k"] == "hflip" and 0.0 < st["p"] < 1.0):
+            draws_before_paired = True
     names = [st["k"] for st in stages]
     what0 = f"SemsegTransformWrapper(seed={s['wseed']}, transforms={stages}) io={io}"
     # unseeded wrapper: the transforms keep the generator injected here (deterministic replay)
-    ok, wrapper = _real(run, lambda: SemsegTransformWrapper(ds, [_build_stage(st, seed=s["seed"] + k) for k, st in enumerate(stages)], seed=s["wseed"]), what0)
+    ok, wrapper = _real(run, lambda: SemsegTransformWrapper(ds, [_build_stage(st, seed=s["seed"] + k, io=io) for k, st in enumerate(stages)], seed=s["wseed"]), what0)
     if not ok:
         return
-    run.cover("pipeline", io, tuple(names), s["wseed"] is None)
+    run.cover("pipeline", io, tuple(names), s["wseed"] is None, draws_before_paired)
     last = [st for st in stages if st["k"] in ("pad", "crop", "resize", "rresize")]
     for idx, (_, _, marr) in enumerate(items):
         hh, ww = s["sizes"][idx]
@@ -879,7 +918,7 @@ def _pipeline_case(run, s):
         ok, out = _real(run, lambda: wrapper.getitem_xsemseg(idx, ctx={}), what)
         if not ok:
             return
-        codes = _check_pair(run, "pipeline", out[0], out[1], marr, what + " [fused access]", normed=normed)
+        codes = _check_pair(run, "pipeline", out[0], out[1], marr, what + " [fused access]", normed=normed, solarized=solar)
         if codes is None:
             return
         run.count("pipeline_checked")
@@ -898,9 +937,17 @@ def _pipeline_case(run, s):
             ok2, ms = _real(run, lambda: wrapper.getitem_semseg(idx, ctx={}), what)
             if not (ok1 and ok2):
                 return
-            if _check_pair(run, "pipeline-separate-access", xs, ms, marr, what + " [getitem_x / getitem_semseg]", normed=normed) is None:
+            sep = _check_pair(run, "pipeline-separate-access", xs, ms, marr, what + " [getitem_x / getitem_semseg]", normed=normed, solarized=solar)
+            if sep is None:
                 return
             run.count("pipeline_separate_access_checked")
+            if draws_before_paired:
+                run.count("pipeline_separate_access_with_image_only_draws")
+            # same seed, same index: the geometry of either access path is the same one
+            if sep.shape != codes.shape or not np.array_equal(sep, codes) or not np.array_equal(G.mask_array(ms), G.mask_array(out[1])):
+                run.violation("paired:pipeline-separate-access:geometry-differs-from-fused",
+                              f"{what}: getitem_x / getitem_semseg show a different window / flip than getitem_xsemseg for the same seed and index")
+                return
 
 
 # ================================================================================================ inverses
